@@ -164,7 +164,7 @@ func Step(s pipeline.Step, mode Mode) *gt.Node {
 		if t == nil {
 			return gt.NullN()
 		}
-		out.Put("$kind", gt.StrN("command"))
+		out.Put("·kind", gt.StrN("command"))
 		out.Put("key", gt.StrN(t.Key))
 		out.Put("label", gt.StrN(t.Label))
 		out.Put("command", gt.StrN(t.Command))
@@ -177,18 +177,18 @@ func Step(s pipeline.Step, mode Mode) *gt.Node {
 		out.Put("cache", Cache(t.Cache, mode))
 		out.Put("remaining", anyMap(t.RemainingFields, mode))
 	case *pipeline.WaitStep:
-		out.Put("$kind", gt.StrN("wait"))
+		out.Put("·kind", gt.StrN("wait"))
 		out.Put("scalar", gt.StrN(t.Scalar))
 		out.Put("contents", anyMap(t.Contents, mode))
 	case *pipeline.InputStep:
-		out.Put("$kind", gt.StrN("input"))
+		out.Put("·kind", gt.StrN("input"))
 		out.Put("scalar", gt.StrN(t.Scalar))
 		out.Put("contents", anyMap(t.Contents, mode))
 	case *pipeline.TriggerStep:
-		out.Put("$kind", gt.StrN("trigger"))
+		out.Put("·kind", gt.StrN("trigger"))
 		out.Put("contents", anyMap(t.Contents, mode))
 	case *pipeline.GroupStep:
-		out.Put("$kind", gt.StrN("group"))
+		out.Put("·kind", gt.StrN("group"))
 		out.Put("key", gt.StrN(t.Key))
 		if t.Group == nil {
 			out.Put("group", gt.NullN())
@@ -198,10 +198,10 @@ func Step(s pipeline.Step, mode Mode) *gt.Node {
 		out.Put("steps", Steps(t.Steps, mode))
 		out.Put("remaining", anyMap(t.RemainingFields, mode))
 	case *pipeline.UnknownStep:
-		out.Put("$kind", gt.StrN("unknown"))
+		out.Put("·kind", gt.StrN("unknown"))
 		out.Put("contents", Value(t.Contents))
 	default:
-		out.Put("$kind", gt.StrN(fmt.Sprintf("%T", s)))
+		out.Put("·kind", gt.StrN(fmt.Sprintf("%T", s)))
 	}
 	return out
 }
